@@ -2,6 +2,7 @@ package play
 
 import (
 	"fmt"
+	"math/big"
 
 	"github.com/berquerant/crd/chord"
 	"github.com/berquerant/crd/errorx"
@@ -59,13 +60,14 @@ func (m MIDIWriter) Write(w midix.Writer, instances []op.Instance) error {
 		// apply control changes
 		args.writeWhenUpdated(w)
 
-		var value float64
+		// the exact sum: a float64 sum near half a tick is rounded to the wrong side
+		value := new(big.Rat)
 		for _, v := range instance.Values {
-			value += v.Float()
+			value.Add(value, v.Big())
 		}
 
 		if instance.IsRest() {
-			w.Rest(value)
+			w.RestExact(value)
 			continue
 		}
 
@@ -79,7 +81,7 @@ func (m MIDIWriter) Write(w midix.Writer, instances []op.Instance) error {
 			midiKeys[i] = uint8(x)
 		}
 
-		if err := w.Note(value, args.getVelocity(), midiKeys...); err != nil {
+		if err := w.NoteExact(value, args.getVelocity(), midiKeys...); err != nil {
 			return fmt.Errorf("%w: instance[%d]", err, i)
 		}
 	}
